@@ -201,6 +201,7 @@ pub struct CodegenContext {
     import_stack: Vec<PathBuf>,
     /// The number of macro invocations that are currently being expanded, used to detect runaway recursion
     macro_depth: usize,
+    loop_iterations: usize,
 
     test_elements: Vec<TestElement>,
 
@@ -251,6 +252,7 @@ impl CodegenContext {
             next_macro_scope_id: 0,
             import_stack: vec![],
             macro_depth: 0,
+            loop_iterations: 0,
             test_elements: vec![],
             source_map: SourceMap::default(),
         }
@@ -337,6 +339,7 @@ impl CodegenContext {
     fn next_pass(&mut self) {
         self.pass_idx += 1;
         self.next_macro_scope_id = 0;
+        self.loop_iterations = 0;
 
         log::trace!("\n* NEXT PASS ({}) *", self.pass_idx);
         self.segments.values_mut().for_each(|s| s.reset());
@@ -1041,6 +1044,19 @@ impl CodegenContext {
                             .into());
                     }
                     for index in 0..loop_count {
+                        // Nested loops multiply: far more iterations than there are bytes in the address space
+                        // cannot assemble to anything either, they only keep the assembler busy
+                        const MAX_LOOP_ITERATIONS: usize = 0x40000;
+                        self.loop_iterations += 1;
+                        if self.loop_iterations > MAX_LOOP_ITERATIONS {
+                            return Err(Diagnostic::error()
+                                .with_message(format!(
+                                    "more than {} loop iterations in one pass",
+                                    MAX_LOOP_ITERATIONS
+                                ))
+                                .with_labels(vec![expr.span.to_label()])
+                                .into());
+                        }
                         self.with_scope(loop_scope, Some(block), |s| {
                             s.add_symbol(
                                 "index",
